@@ -1,6 +1,7 @@
 (* C10 driver for the extracted model (C10_Model.v -> c10.ml), float instance of NumOps (fops.inc).
    stdin:  PM <kind> <p1> <w> <ph> <t>       expected (q, u, udot) of the prescribed mobilizer for the system kinds of harness/C10_motion.cpp
                                               -> E <q|-> <u|-> <udot|->          (hexadecimal doubles)
+           PB <q0> <q1> <q2> <qd> <qdd>         position-level Motion on a Ball-like mobilizer -> B u(3) udot(3) qdot(3) qdotdot(3)
            LOCK <id> / op lines / END          the lock state machine: LK lev | LA lev x | UL | Q x | U x | ME b | PR t
                                               -> L <level> <lockvalue|-> <q> <u> <prescribed udot|->  after every op *)
 open C10
@@ -32,6 +33,11 @@ let () =
        let (pq, pu), pud = presc fops m' t in
        Printf.printf "E %s %s %s\n" (if showq then (match pq with Some _ -> h m'.q | None -> "-") else "-")
          (match pu with Some _ -> h m'.u | None -> "-") (opt pud)
+    | "PB" :: q0 :: q1 :: q2 :: qd :: qdd :: _ ->
+       (* position-level Motion on a qdot = N(q) u mobilizer: u, udot, reported qdot, reported qdotdot (C10_PrescModel.presc_all) *)
+       let qd = f qd and qdd = f qdd in
+       let (((((u0, u1), u2), ((a0, a1), a2)), ((d0, d1), d2)), ((e0, e1), e2)) = presc_all fops true ((f q0, f q1), f q2) ((qd, qd), qd) ((qdd, qdd), qdd) in
+       Printf.printf "B %s %s %s %s %s %s %s %s %s %s %s %s\n" (h u0) (h u1) (h u2) (h a0) (h a1) (h a2) (h d0) (h d1) (h d2) (h e0) (h e1) (h e2)
     | "LOCK" :: id :: _ -> st := mob0 (Some (Sinusoid (Position, 0.5, 1.5, 0.25))) false; tlast := 0.0; inlock := true; Printf.printf "LOCK %s\n" id
     | "END" :: _ -> inlock := false; print_string "END\n"
     | o :: rest when !inlock ->
